@@ -1,10 +1,10 @@
 #!/bin/bash
 # usage: soak.sh <tier> <seed> [<seed> ...] — every check at the given tier for several seeds; one line per run.
-# Meant for `vp run --with-repo -- tools/soak.sh quick 2 3 4` (builds from the /repo snapshot in $VP_RUN_REPO).
+# CHECKS="13 14" restricts the checks. Meant for `vp run --with-repo -- tools/soak.sh quick 2 3 4` (builds from the /repo snapshot in $VP_RUN_REPO).
 tier=$1; shift
 [ -n "${VP_RUN_REPO:-}" ] && export VERIF_REPO=$VP_RUN_REPO
 for s in "$@"; do
-  for i in 01 02 03 04 05 06 07 08 09 10 11 12 13 14 15 16 17 18 19 20; do
+  for i in ${CHECKS:-01 02 03 04 05 06 07 08 09 10 11 12 13 14 15 16 17 18 19 20}; do
     out=$(VERIF_SEED=$s ./check C$i --tier $tier 2>&1); rc=$?
     echo "seed=$s C$i rc=$rc $(echo "$out" | grep -E "^VIOLATION|^KNOWN|HARNESS" | head -3 | tr '\n' ' ') $(echo "$out" | grep -E "(quick|thorough) seed" | tail -1)"
   done
